@@ -243,6 +243,19 @@ impl Ctx {
         }
     }
 
+    /// Engines whose executions are expensive (forked servers, real sockets, time horizons) stop
+    /// exploring once this worker holds `cap` distinct failing signatures: the verdict stands, and
+    /// what was not run is reported as such.
+    pub fn verdict_established(&mut self, cap: usize) -> bool {
+        if self.failure_counts.len() >= cap {
+            if !self.notes.iter().any(|n| n.starts_with("exploration stopped")) {
+                self.notes.push(format!("exploration stopped in a worker after {} distinct failing signatures; the remaining cases of that worker were not run", cap));
+            }
+            return true;
+        }
+        false
+    }
+
     pub fn machinery_error(&mut self, msg: String) {
         if self.machinery_errors.len() < 20 {
             self.machinery_errors.push(msg);
